@@ -1069,6 +1069,7 @@ int driver_main(const DriverOpts &o)
     std::vector<Known>       known = load_known(o.verif_dir, prof->property());
     std::set<std::string>    known_keys;
     std::vector<std::string> known_lines;
+    std::vector<std::pair<Plan, Outcome>> changed_known;
     for (auto &k : known) {
         if (k.mask)
             known_keys.insert(k.key);
@@ -1092,8 +1093,19 @@ int driver_main(const DriverOpts &o)
             known_lines.push_back(line);
         }
         else if (out.status != ST_OK && out.status != ST_ENGINE) {
-            printf("note: stored replay %s now fails differently (key=%s); the search below decides\n",
-                   k.replay.c_str(), out.v.key.c_str());
+            // the stored history fails, but not in the recorded way: unless that way is listed too, it is a
+            // violation of its own (a known finding covers one failure, not whatever its replay may do)
+            bool listed = false;
+            for (auto &k2 : known)
+                listed |= k2.key == out.v.key;
+            if (listed)
+                printf("note: stored replay %s fails with the key of another listed finding (key=%s)\n", k.replay.c_str(),
+                       out.v.key.c_str());
+            else {
+                printf("note: stored replay %s now fails differently (key=%s, recorded %s)\n", k.replay.c_str(),
+                       out.v.key.c_str(), k.key.c_str());
+                changed_known.push_back({plan, out});
+            }
         }
     }
 
@@ -1221,6 +1233,33 @@ int driver_main(const DriverOpts &o)
                         (unsigned long long)f.run, f.v.key.c_str(), rc);
             }
         }
+    }
+    for (size_t ci = 0; ci < changed_known.size(); ci++) {
+        Plan    &cp = changed_known[ci].first;
+        Outcome &co = changed_known[ci].second;
+        if (seen_keys.count(co.v.key))
+            continue;
+        cp.expect_class  = co.v.cls;
+        cp.expect_key    = co.v.key;
+        cp.note          = co.v.msg;
+        std::string path = strf("%s/replays/%s-seed%llu-stored%zu.plan", o.verif_dir.c_str(), prof->property(),
+                                (unsigned long long)o.seed, ci);
+        FILE       *fp   = fopen(path.c_str(), "w");
+        if (fp) {
+            std::string t = cp.to_text();
+            fwrite(t.data(), 1, t.size(), fp);
+            fclose(fp);
+        }
+        if (fresh_replay(path) == 1) {
+            seen_keys.insert(co.v.key);
+            reported++;
+            printf("violation: stored replay of a known finding fails in an unlisted way: class=%s key=%s: %s\n",
+                   co.v.cls.c_str(), co.v.key.c_str(), co.v.msg.c_str());
+            printf("VIOLATION property=%s replay=%s\n", prof->property(), path.c_str());
+            viol_notes.push_back(strf("%s key=%s replay=%s: %s", co.v.cls.c_str(), co.v.key.c_str(), path.c_str(), co.v.msg.c_str()));
+        }
+        else
+            gate_failed++;
     }
     double wall = now_s() - t0;
     write_evidence(o, prof, thorough, agg, wall, reported, known_lines, nruns, viol_notes);
